@@ -959,3 +959,257 @@ Proof.
   rewrite map_slice, HS1, HS2; unfold with_init;
   (destruct (kept dv N) as [|[d v] K']; simpl; destruct init; try reflexivity; destruct (d =? 0); reflexivity).
 Qed.
+(* ---------- sorted (dump, value) lists: prior / inside / late ---------- *)
+Lemma nondecr_ge x (l : list (Z * Z)) : nondecr x l -> Forall (fun p => x <= fst p) l.
+Proof.
+  revert x. induction l as [|a l IH]; intros x H; [constructor|]. destruct H as [H1 H2].
+  constructor; [exact H1|]. eapply Forall_impl; [|apply IH; exact H2]. simpl. intros. lia.
+Qed.
+Lemma nondecr_raise x y (l : list (Z * Z)) : nondecr x l -> Forall (fun p => y <= fst p) l -> nondecr y l.
+Proof. destruct l as [|a l]; [auto|]. intros [H1 H2] Hf. inversion Hf; subst. split; assumption. Qed.
+Lemma tw_sub {A} (P : A -> Prop) f l : Forall P l -> Forall P (tw f l).
+Proof. induction 1 as [|a l Ha _ IH]; [constructor|]. simpl. destruct (f a); [constructor; assumption|constructor]. Qed.
+Lemma dw_sub {A} (P : A -> Prop) f l : Forall P l -> Forall P (dw f l).
+Proof. induction 1 as [|a l Ha Hl IH]; [constructor|]. simpl. destruct (f a); [exact IH|constructor; assumption]. Qed.
+Lemma tw_nondecr f (l : list (Z * Z)) : forall x, nondecr x l -> nondecr x (tw f l).
+Proof. induction l as [|a l IH]; intros x H; [exact Logic.I|]. destruct H as [H1 H2]. simpl. destruct (f a); [split; [exact H1|apply IH; exact H2]|exact Logic.I]. Qed.
+Lemma dw_nondecr f (l : list (Z * Z)) : forall x, nondecr x l -> nondecr x (dw f l).
+Proof.
+  induction l as [|a l IH]; intros x H; [exact Logic.I|]. destruct H as [H1 H2]. simpl. destruct (f a).
+  - apply nondecr_raise with (x := fst a); [apply IH; exact H2|].
+    eapply Forall_impl; [|apply nondecr_ge; apply IH; exact H2]. simpl. intros. lia.
+  - split; assumption.
+Qed.
+Lemma dw_sorted_gt (l : list (Z * Z)) v : forall x, nondecr x l -> Forall (fun p => v < fst p) (dw (fun p => fst p <=? v) l).
+Proof.
+  induction l as [|a l IH]; intros x H; [constructor|]. destruct H as [H1 H2]. simpl.
+  destruct (fst a <=? v) eqn:E; [apply (IH (fst a)); exact H2|].
+  constructor; [lia|]. eapply Forall_impl; [|apply nondecr_ge; exact H2]. simpl. intros. lia.
+Qed.
+Lemma dw_sorted_ge (l : list (Z * Z)) v : forall x, nondecr x l -> Forall (fun p => v <= fst p) (dw (fun p => fst p <? v) l).
+Proof.
+  induction l as [|a l IH]; intros x H; [constructor|]. destruct H as [H1 H2]. simpl.
+  destruct (fst a <? v) eqn:E; [apply (IH (fst a)); exact H2|].
+  constructor; [lia|]. eapply Forall_impl; [|apply nondecr_ge; exact H2]. simpl. intros. lia.
+Qed.
+
+Lemma Forall_and {A} (P Q : A -> Prop) l : Forall P l -> Forall Q l -> Forall (fun x => P x /\ Q x) l.
+Proof. induction 1; intro H2; inversion H2; subst; constructor; auto. Qed.
+
+Lemma dv_split (dv : list (Z * Z)) N : nondecr (-1) dv -> Forall (fun p => fst p <= N) dv ->
+  let f1 := fun p : Z * Z => fst p <=? -1 in
+  let f2 := fun p : Z * Z => fst p <? N in
+  let pri := tw f1 dv in let mid := tw f2 (dw f1 dv) in let late := dw f2 (dw f1 dv) in
+  dv = pri ++ mid ++ late /\ Forall (fun p => fst p = -1) pri /\
+  Forall (fun p => 0 <= fst p < N) mid /\ nondecr 0 mid /\ Forall (fun p => fst p = N) late.
+Proof.
+  intros Hn Hf f1 f2 pri mid late.
+  assert (Hrest : Forall (fun p => 0 <= fst p) (dw f1 dv)).
+  { eapply Forall_impl; [|apply (dw_sorted_gt dv (-1) (-1) Hn)]. simpl. intros. lia. }
+  split; [unfold pri, mid, late; rewrite <- tw_dw; apply tw_dw|].
+  split.
+  { pose proof (Forall_and _ _ _ (tw_Forall f1 dv) (tw_sub _ f1 _ (nondecr_ge _ _ Hn))) as H.
+    eapply Forall_impl; [|exact H]. unfold f1. simpl. intros. lia. }
+  split.
+  { pose proof (Forall_and _ _ _ (tw_Forall f2 (dw f1 dv)) (tw_sub _ f2 _ Hrest)) as H.
+    eapply Forall_impl; [|exact H]. unfold f2. simpl. intros. lia. }
+  split.
+  { apply tw_nondecr. apply nondecr_raise with (x := -1); [apply dw_nondecr; exact Hn|exact Hrest]. }
+  pose proof (Forall_and _ _ _ (dw_sorted_ge (dw f1 dv) N (-1) (dw_nondecr f1 dv (-1) Hn))
+                             (dw_sub _ f2 _ (dw_sub _ f1 _ Hf))) as H.
+  eapply Forall_impl; [|exact H]. simpl. intros. lia.
+Qed.
+
+Lemma before_app k (a b : list (Z * Z)) : before k (a ++ b) = before k a ++ before k b.
+Proof. unfold before. rewrite filter_app, map_app. reflexivity. Qed.
+Lemma indump_app k (a b : list (Z * Z)) : indump k (a ++ b) = indump k a ++ indump k b.
+Proof. unfold indump. rewrite filter_app, map_app. reflexivity. Qed.
+Lemma before_none k (l : list (Z * Z)) : Forall (fun p => k <= fst p) l -> before k l = [].
+Proof. unfold before. induction 1 as [|a l Ha _ IH]; [reflexivity|]. simpl. destruct (fst a <? k) eqn:E; [lia|exact IH]. Qed.
+Lemma indump_none k (l : list (Z * Z)) : Forall (fun p => fst p <> k) l -> indump k l = [].
+Proof. unfold indump. induction 1 as [|a l Ha _ IH]; [reflexivity|]. simpl. destruct (fst a =? k) eqn:E; [lia|exact IH]. Qed.
+Lemma Forall_imp2 {A} (P Q : A -> Prop) l : (forall x, P x -> Q x) -> Forall P l -> Forall Q l.
+Proof. intros H F. eapply Forall_impl; [exact H|exact F]. Qed.
+Section PrepSem.
+Variable isg : Z -> bool.
+
+(* the documented rule on the (dump, value) list of ALL events (prior = -1, late = N), start value st *)
+Definition dvalue (dv : list (Z * Z)) (st k : Z) : Z := pick isg (last (before k dv) st :: indump k dv).
+
+Definition init_dv (dv : list (Z * Z)) (init : option Z) : option Z :=
+  if existsb (fun p => fst p =? -1) dv then init
+  else if existsb (fun p => fst p =? 0) dv then None else init.
+Definition start_dv (dv : list (Z * Z)) (init : option Z) (N : Z) : option Z :=
+  match init_dv dv init with
+  | Some i => Some i
+  | None => hd_error (map snd (filter (fun p => fst p <? N) dv))
+  end.
+
+Lemma pick_dup v xs : pick isg (v :: v :: xs) = pick isg (v :: xs).
+Proof.
+  unfold pick. simpl filter. destruct (isg v).
+  - unfold last_opt. rewrite last_cons. reflexivity.
+  - reflexivity.
+Qed.
+
+Lemma before_cons k d v (l : list (Z * Z)) : before k ((d, v) :: l) = if d <? k then v :: before k l else before k l.
+Proof. unfold before. simpl. destruct (d <? k); reflexivity. Qed.
+Lemma indump_cons k d v (l : list (Z * Z)) : indump k ((d, v) :: l) = if d =? k then v :: indump k l else indump k l.
+Proof. unfold indump. simpl. destruct (d =? k); reflexivity. Qed.
+
+Lemma last_app_mid {A} (a : list A) x b : forall st, last (a ++ x :: b) st = last b x.
+Proof. induction a as [|y a IH]; intro st; simpl app; rewrite last_cons; [reflexivity|apply IH]. Qed.
+
+Lemma ivalue_head0 v l k : Forall (fun p : Z * Z => 0 <= fst p) l -> 0 <= k ->
+  ivalue isg ((0, v) :: l) k =
+  if k =? 0 then pick isg (v :: indump 0 l) else pick isg (last (before k l) v :: indump k l).
+Proof.
+  intros Hf Hk. unfold ivalue. rewrite before_cons, indump_cons.
+  destruct (k =? 0) eqn:E.
+  - assert (k = 0) by lia. subst k. simpl. rewrite before_none by exact Hf. reflexivity.
+  - replace (0 <? k) with true by lia. replace (0 =? k) with false by lia.
+    unfold last_opt. reflexivity.
+Qed.
+
+Lemma existsb_false {A} (f : A -> bool) l : Forall (fun x => f x = false) l -> existsb f l = false.
+Proof. induction 1 as [|a l Ha _ IH]; [reflexivity|]. simpl. rewrite Ha, IH. reflexivity. Qed.
+
+Lemma dv_before (pri mid late : list (Z * Z)) N k : Forall (fun p => fst p = -1) pri ->
+  Forall (fun p => fst p = N) late -> 0 <= k < N ->
+  before k (pri ++ mid ++ late) = map snd pri ++ before k mid.
+Proof.
+  intros Hp Hl Hk. rewrite !before_app.
+  rewrite (before_above k pri) by (eapply Forall_imp2; [|exact Hp]; simpl; intros; lia).
+  rewrite (before_none k late) by (eapply Forall_imp2; [|exact Hl]; simpl; intros; lia).
+  rewrite app_nil_r. reflexivity.
+Qed.
+Lemma dv_indump (pri mid late : list (Z * Z)) N k : Forall (fun p => fst p = -1) pri ->
+  Forall (fun p => fst p = N) late -> 0 <= k < N ->
+  indump k (pri ++ mid ++ late) = indump k mid.
+Proof.
+  intros Hp Hl Hk. rewrite !indump_app.
+  rewrite (indump_none k pri) by (eapply Forall_imp2; [|exact Hp]; simpl; intros; lia).
+  rewrite (indump_none k late) by (eapply Forall_imp2; [|exact Hl]; simpl; intros; lia).
+  rewrite app_nil_r. reflexivity.
+Qed.
+
+Lemma dv_before0 (mid late : list (Z * Z)) N k :
+  Forall (fun p => fst p = N) late -> 0 <= k < N -> before k (mid ++ late) = before k mid.
+Proof. intros. apply (dv_before [] mid late N k); auto. Qed.
+Lemma dv_indump0 (mid late : list (Z * Z)) N k :
+  Forall (fun p => fst p = N) late -> 0 <= k < N -> indump k (mid ++ late) = indump k mid.
+Proof. intros. apply (dv_indump [] mid late N k); auto. Qed.
+
+Lemma prep_sem dv N init : nondecr (-1) dv -> Forall (fun p => fst p <= N) dv -> 0 < N ->
+  match start_dv dv init N with
+  | None => with_init (kept dv N) init = []
+  | Some st => exists d0 v0 l, with_init (kept dv N) init = (d0, v0) :: l /\ nondecr 0 l /\
+       Forall (fun e => fst e < N) ((0, v0) :: l) /\
+       forall k, 0 <= k < N -> ivalue isg ((0, v0) :: l) k = dvalue dv st k
+  end.
+Proof.
+  intros Hn Hf HN.
+  destruct (dv_split dv N Hn Hf) as [Hdv [Hpri [Hmid [Hmn Hlate]]]].
+  unfold kept. unfold start_dv, init_dv, dvalue.
+  set (pri := tw (fun p : Z * Z => fst p <=? -1) dv) in *.
+  set (mid := tw (fun p : Z * Z => fst p <? N) (dw (fun p : Z * Z => fst p <=? -1) dv)) in *.
+  set (late := dw (fun p : Z * Z => fst p <? N) (dw (fun p : Z * Z => fst p <=? -1) dv)) in *.
+  clearbody pri mid late. subst dv.
+  assert (Hmid0 : Forall (fun p : Z * Z => 0 <= fst p) mid) by (eapply Forall_imp2; [|exact Hmid]; simpl; intros; lia).
+  assert (HmidN : Forall (fun p : Z * Z => fst p < N) mid) by (eapply Forall_imp2; [|exact Hmid]; simpl; intros; lia).
+  destruct pri as [|p0 pri0].
+  - (* no prior event *)
+    simpl app. simpl last_opt. cbv iota.
+    assert (Hl1 : existsb (fun p : Z * Z => fst p =? -1) (mid ++ late) = false).
+    { apply existsb_false. apply Forall_app. split; [eapply Forall_imp2; [|exact Hmid0]|eapply Forall_imp2; [|exact Hlate]]; simpl; intros; lia. }
+    rewrite Hl1.
+    destruct mid as [|[d v] mid'].
+    + (* nothing inside the dumps either *)
+      simpl app.
+      assert (Hl0 : existsb (fun p : Z * Z => fst p =? 0) late = false).
+      { apply existsb_false. eapply Forall_imp2; [|exact Hlate]. simpl. intros. lia. }
+      rewrite Hl0.
+      assert (Hfl : filter (fun p : Z * Z => fst p <? N) late = []).
+      { clear -Hlate. induction Hlate as [|a l Ha _ IH]; [reflexivity|]. simpl. destruct (fst a <? N) eqn:E; [lia|exact IH]. }
+      destruct init as [i|]; simpl with_init.
+      * exists 0, i, []. split; [reflexivity|]. split; [exact Logic.I|]. split; [constructor; [simpl; lia|constructor]|].
+        intros k Hk. rewrite ivalue_head0 by (try constructor; lia).
+        rewrite (before_none k late) by (eapply Forall_imp2; [|exact Hlate]; simpl; intros; lia).
+        rewrite (indump_none k late) by (eapply Forall_imp2; [|exact Hlate]; simpl; intros; lia).
+        simpl. destruct (k =? 0); reflexivity.
+      * rewrite Hfl. reflexivity.
+    + inversion Hmid; subst. simpl in H1. destruct Hmn as [Hd0 Hmn']. simpl in Hd0, Hmn'.
+      assert (Hge : Forall (fun p : Z * Z => d <= fst p) mid') by (apply nondecr_ge; exact Hmn').
+      inversion HmidN; subst. inversion Hmid0; subst.
+      assert (Hcase : forall st, (st = v) ->
+                exists d0 v0 l, (d, v) :: mid' = (d0, v0) :: l /\ nondecr 0 l /\
+                  Forall (fun e => fst e < N) ((0, v0) :: l) /\
+                  forall k, 0 <= k < N -> ivalue isg ((0, v0) :: l) k =
+                     pick isg (last (before k (((d, v) :: mid') ++ late)) st :: indump k (((d, v) :: mid') ++ late))).
+      { intros st ->. exists d, v, mid'. split; [reflexivity|].
+        split; [apply nondecr_raise with (x := d); [exact Hmn'|eapply Forall_imp2; [|exact Hge]; simpl; intros; lia]|].
+        split; [constructor; [simpl; lia|assumption]|].
+        intros k Hk. rewrite ivalue_head0 by (assumption || lia).
+        rewrite (dv_before0 ((d, v) :: mid') late N k) by auto.
+        rewrite (dv_indump0 ((d, v) :: mid') late N k) by auto.
+        rewrite before_cons, indump_cons.
+        destruct (d <? k) eqn:E1.
+        - replace (d =? k) with false by lia. replace (k =? 0) with false by lia. rewrite last_cons. reflexivity.
+        - destruct (d =? k) eqn:E2.
+          + assert (k = d) by lia. subst k.
+            rewrite (before_none d mid') by exact Hge. simpl last. rewrite pick_dup.
+            destruct (d =? 0) eqn:E3; [assert (d = 0) by lia; subst d; reflexivity|reflexivity].
+          + rewrite (before_none k mid') by (eapply Forall_imp2; [|exact Hge]; simpl; intros; lia).
+            rewrite (indump_none k mid') by (eapply Forall_imp2; [|exact Hge]; simpl; intros; lia).
+            destruct (k =? 0) eqn:E3; [assert (k = 0) by lia; subst k|]; simpl;
+            rewrite ?(indump_none 0 mid') by (eapply Forall_imp2; [|exact Hge]; simpl; intros; lia); reflexivity. }
+      assert (Hhd : hd_error (map snd (filter (fun p : Z * Z => fst p <? N) (((d, v) :: mid') ++ late))) = Some v).
+      { simpl. replace (d <? N) with true by lia. reflexivity. }
+      destruct init as [i|].
+      * simpl with_init. simpl existsb. destruct (d =? 0) eqn:Ed.
+        -- simpl orb. cbv iota. rewrite Hhd. apply Hcase. reflexivity.
+        -- assert (Hl0 : existsb (fun p : Z * Z => fst p =? 0) (mid' ++ late) = false).
+           { apply existsb_false. apply Forall_app. split; [eapply Forall_imp2; [|exact Hge]|eapply Forall_imp2; [|exact Hlate]]; simpl; intros; lia. }
+           rewrite Hl0. simpl orb. cbv iota.
+           exists 0, i, ((d, v) :: mid'). split; [reflexivity|].
+           split; [split; [simpl; lia|exact Hmn']|].
+           split; [constructor; [simpl; lia|constructor; [simpl; lia|assumption]]|].
+           intros k Hk. rewrite ivalue_head0 by (try constructor; assumption || (simpl; lia)).
+           rewrite (dv_before0 ((d, v) :: mid') late N k) by auto.
+           rewrite (dv_indump0 ((d, v) :: mid') late N k) by auto.
+           destruct (k =? 0) eqn:E3; [|reflexivity]. assert (k = 0) by lia. subst k.
+           rewrite (before_none 0 ((d, v) :: mid')) by (constructor; [simpl; lia|assumption]). reflexivity.
+      * simpl with_init.
+        destruct (existsb (fun p : Z * Z => fst p =? 0) (((d, v) :: mid') ++ late)); rewrite Hhd; apply Hcase; reflexivity.
+  - (* some prior event: its value is in force when the first dump starts; the start value is irrelevant *)
+    assert (Hne : p0 :: pri0 <> []) by discriminate.
+    destruct (exists_last Hne) as [pa [pl Epl]]. rewrite Epl in *.
+    rewrite last_opt_snoc.
+    assert (HK : with_init ((0, snd pl) :: mid) init = (0, snd pl) :: mid) by (destruct init; reflexivity).
+    rewrite HK.
+    assert (Hall : forall st, exists d0 v0 l, (0, snd pl) :: mid = (d0, v0) :: l /\ nondecr 0 l /\
+                  Forall (fun e => fst e < N) ((0, v0) :: l) /\
+                  forall k, 0 <= k < N -> ivalue isg ((0, v0) :: l) k =
+                     pick isg (last (before k ((pa ++ [pl]) ++ mid ++ late)) st :: indump k ((pa ++ [pl]) ++ mid ++ late))).
+    { intro st. exists 0, (snd pl), mid. split; [reflexivity|]. split; [exact Hmn|].
+      split; [constructor; [simpl; lia|exact HmidN]|].
+      intros k Hk. rewrite ivalue_head0 by (assumption || lia).
+      rewrite (dv_before (pa ++ [pl]) mid late N k) by auto.
+      rewrite (dv_indump (pa ++ [pl]) mid late N k) by auto.
+      rewrite map_app. simpl map. rewrite <- app_assoc. simpl app. rewrite last_app_mid.
+      destruct (k =? 0) eqn:E3; [|reflexivity]. assert (k = 0) by lia. subst k.
+      rewrite (before_none 0 mid) by exact Hmid0. reflexivity. }
+    assert (He : existsb (fun p : Z * Z => fst p =? -1) ((pa ++ [pl]) ++ mid ++ late) = true).
+    { apply existsb_exists. exists pl. split; [apply in_or_app; left; apply in_or_app; right; left; reflexivity|].
+      apply Forall_app in Hpri. destruct Hpri as [_ Hpl]. inversion Hpl; subst. lia. }
+    rewrite He.
+    destruct init as [i|]; [apply Hall|].
+    assert (Hhd : exists x, hd_error (map snd (filter (fun p : Z * Z => fst p <? N) ((pa ++ [pl]) ++ mid ++ late))) = Some x).
+    { assert (Hin : In pl (filter (fun p : Z * Z => fst p <? N) ((pa ++ [pl]) ++ mid ++ late))).
+      { apply filter_In. split; [apply in_or_app; left; apply in_or_app; right; left; reflexivity|].
+        apply Forall_app in Hpri. destruct Hpri as [_ Hpl]. inversion Hpl; subst. lia. }
+      destruct (filter (fun p : Z * Z => fst p <? N) ((pa ++ [pl]) ++ mid ++ late)) as [|x xs]; [destruct Hin|].
+      simpl. eauto. }
+    destruct Hhd as [x Hx]. rewrite Hx. apply Hall.
+Qed.
+End PrepSem.
